@@ -25,7 +25,13 @@ func genURL(r *Rng) string {
 	hosts := []string{"plc:502", "127.0.0.1:1502", "[::1]:502", "/dev/ttyUSB0", "", "a://b", "h", "höst:1", "x y"}
 	sc := schemes[r.Intn(len(schemes))]
 	h := hosts[r.Intn(len(hosts))]
-	switch r.Intn(14) {
+	switch r.Intn(17) {
+	case 14: // the bare scheme word, no separator, no host
+		return sc
+	case 15: // scheme word followed by something that is not the separator
+		return sc + []string{":", ":/", "/", ":502", "//"}[r.Intn(5)]
+	case 16: // separator at the very end / scheme only
+		return sc + "://"
 	case 0:
 		return strings.ToUpper(sc) + "://" + h
 	case 1:
@@ -103,6 +109,17 @@ func init() {
 			impl := guard(func() string {
 				mc, err := modbus.NewClient(conf)
 				if err != nil {
+					// the object handed back with the error must not be usable: no transport type,
+					// and Open() refuses it (no dial is attempted)
+					if mc != nil {
+						if tt := mc.VerifConfig().TransportType; tt != 0 {
+							res.Add(Finding{Kind: "property", Check: "refused-client-usable", Line: line, Impl: fmt.Sprintf("transport type %d on the refused client", tt), Expect: "0", Note: "url=" + url})
+						}
+						if oerr := mc.Open(); oerr == nil || canonErr(oerr) != "ErrConfigurationError" {
+							res.Add(Finding{Kind: "property", Check: "refused-client-usable", Line: line, Impl: "Open() on the refused client: " + canonErr(oerr), Expect: "ErrConfigurationError", Note: "url=" + url})
+							mc.Close()
+						}
+					}
 					return "err:" + canonErr(err)
 				}
 				c := mc.VerifConfig()
@@ -176,6 +193,12 @@ func init() {
 			simpl := guard(func() string {
 				ms, err := modbus.NewServer(sconf, &scriptedHandler{script: []string{"ok"}, events: &[]string{}, evmu: &sync.Mutex{}})
 				if err != nil {
+					if ms != nil { // the refused server must not start listening
+						if serr := ms.Start(); serr == nil || canonErr(serr) != "ErrConfigurationError" {
+							res.Add(Finding{Kind: "property", Check: "refused-server-usable", Line: sline, Impl: "Start() on the refused server: " + canonErr(serr), Expect: "ErrConfigurationError", Note: "url=" + url})
+							ms.Stop()
+						}
+					}
 					return "err:" + canonErr(err)
 				}
 				c := ms.VerifConfig()
